@@ -309,7 +309,35 @@ fn expected_truth(m: &GMsg, layout: &Layout) -> String {
     )
 }
 
-pub fn gen_truth(r: &mut Rng, _i: u64) -> String {
+/// a well-formed message of exactly `target` bytes: the sizes around the 65535-byte limit of a DNS
+/// message (the largest the two-octet TCP length prefix announces, and the largest `MessageReader` takes;
+/// the iterator API has no limit). `sec` is the section that gets the padding record.
+pub(super) fn gen_big(r: &mut Rng, targets: &[usize]) -> Option<(GMsg, Vec<u8>, Layout, usize)> {
+    let mut m = gen_wellformed(r);
+    let mode = pick_mode(r);
+    let target = *r.pick(targets);
+    let sec = r.below(3) as usize;
+    let rtype = *r.pick(&[99u16, 0xff10, 257]);
+    let (buf, layout) = encode_padded(&mut m, mode, r, sec, rtype, target)?;
+    Some((m, buf, layout, target))
+}
+
+/// at most 100 cases of a run, whatever its size, are the (large) boundary-size messages
+pub(super) fn big_slot(i: u64, every: u64) -> bool {
+    i % every == every - 1 && i < 100 * every
+}
+
+pub fn gen_truth(r: &mut Rng, i: u64) -> String {
+    if big_slot(i, 200) {
+        if let Some((m, buf, layout, target)) = gen_big(r, &[65535, 65535, 65535, 65534, 65536, 65537, 66000]) {
+            return if target <= 65535 {
+                format!("truth {} exp={}", to_hex(&buf), expected_truth(&m, &layout))
+            } else {
+                // the sequential reader refuses the buffer; the iterator API decodes it
+                format!("truth {}", to_hex(&buf))
+            };
+        }
+    }
     let m = gen_wellformed(r);
     let mode = pick_mode(r);
     let (buf, layout) = encode(&m, mode, r);
